@@ -37,7 +37,7 @@ ASSUMPTIONS = [
     "PQR; their failure is outside the statement",
 ]
 BOUND = {
-    "quick": "complete success grid; 10 argument classes; 9 input classes; "
+    "quick": "complete success grid (+ chains ending in waters/ions of the same chain id); 10 argument classes; 11 input classes; "
     "26 call sites x {1st, 2nd, last} x 4 exception types x 2 output states "
     "on one structure that reaches every site",
     "thorough": "faults additionally on a second structure (strand + ligand "
@@ -288,6 +288,15 @@ def input_classes():
                         None),
         "unparseable-atom": ("ATOM      1  N   ALA A   1      xx.xxx   0.000"
                              "   0.000\nEND\n", ["--ff=AMBER"], None),
+        "unparseable-hetatm": (
+            build.pdb_text(good, end=False)
+            + "HETATM  900  O   HOH A 900       8.000   8.000   8.000\n"
+            + "HETATM  901  O   HOH A 901    ********   9.000   9.000\n"
+            + "HETATM  902  O   HOH A 902      10.000  10.000  10.000\nEND\n",
+            ["--ff=AMBER"], None),
+        "unparseable-resseq": (
+            build.pdb_text(good, end=False).replace("ALA A   1", "ALA A  1x")
+            + "END\n", ["--ff=AMBER"], None),
         "only-unknown-residues": (
             "HETATM    1 ZN    ZN A   1       0.000   0.000   0.000\nEND\n",
             ["--ff=AMBER"], None),
@@ -355,6 +364,22 @@ def run_success_case(case):
     else:
         atoms = build.build_strand(case["seq"], naming=case["naming"])
         label = f"{ff}/strand:{case['naming']}:{'-'.join(case['seq'])}"
+    if case.get("tail"):
+        import numpy as np
+
+        cid = atoms[0]["chain"]
+        n = max(a["res_seq"] for a in atoms if a["record"] == "ATOM") + 1
+        atoms = [a for a in atoms if a["record"] == "ATOM"]
+        if "water" in case["tail"]:
+            atoms.append(build.water((25.0, 9.0, 9.0), n, chain=cid))
+            atoms.append(build.water((25.0, 13.0, 9.0), n + 1, chain=cid))
+            n += 2
+        if "ion" in case["tail"]:
+            atoms.append(build.BAtom(name="ZN", res_name="ZN", chain=cid,
+                                     res_seq=n, icode="",
+                                     xyz=np.array([30.0, 0.0, 0.0]),
+                                     record="HETATM", res_idx=-1))
+        label += f"+tail:{case['tail']}"
     r = pipeline.run(build.pdb_text(atoms), opts, want_text=False)
     state = out_state(r.out_path, False)
     viol = []
@@ -384,6 +409,7 @@ def enumerate_cases(tier, seed):
     for name in ARG_CLASSES:
         cases.append({"mode": "arg", "name": name})
     for name in ["empty-file", "header-only", "unparseable-atom",
+                 "unparseable-hetatm", "unparseable-resseq",
                  "only-unknown-residues", "missing-backbone",
                  "too-many-missing", "fractional-user-charges",
                  "his-without-h-assign-only", "good-control"]:
@@ -406,4 +432,14 @@ def enumerate_cases(tier, seed):
         for seq, naming in strands:
             cases.append({"mode": "success", "kind": "strand", "ff": ff,
                           "seq": seq, "naming": naming})
+        # chains that end in waters / an ion carrying the same chain id
+        for seq in (["DA", "DC", "DG"], ["RG", "RC", "RA"]):
+            for tail in ("water", "ion", "water+ion"):
+                cases.append({"mode": "success", "kind": "strand", "ff": ff,
+                              "seq": seq, "naming": "legacy", "tail": tail})
+    for ff in corpus.FFS:
+        for x in ("ALA", "LYS", "ASP", "PRO"):
+            for tail in ("water", "ion", "water+ion"):
+                cases.append({"mode": "success", "kind": "host", "ff": ff,
+                              "x": x, "pos": "c", "tail": tail})
     return cases
